@@ -40,6 +40,8 @@ type Violation struct {
 	Stack   []string
 }
 
+var repoRoot = "/repo"
+
 type Config struct {
 	MaxPaths     int
 	MaxSteps     int
@@ -114,7 +116,7 @@ func (x *Exec) pos(in ssa.Instruction) string {
 		return "?"
 	}
 	f := p.Filename
-	f = strings.TrimPrefix(f, "/repo/")
+	f = strings.TrimPrefix(f, repoRoot+"/")
 	return fmt.Sprintf("%s:%d", f, p.Line)
 }
 
